@@ -3,6 +3,7 @@ import AtreeProofs.Batch.MapIdsLevels
 import AtreeProofs.Batch.MapIdsElems
 import AtreeProofs.Map.EffectsTree
 import AtreeProofs.MapRefs
+import AtreeProofs.BatchRefsSpec
 /-
   C17, bulk build of maps — slab identifiers, part 3 (FX9H): the ELEMENT loop of
   `NewMapFromBatchData` (`MBatch.fillLoop`).  New invariant `MFillIds` beside `MFillOk`
@@ -23,17 +24,6 @@ def dataIds (s : MDataSlab r) : List SlabID := s.hdr.id :: extIds s.elems.elems
 /-- tree identifiers held by the state of the element loop -/
 def fillIds (st : FillState r) : List SlabID :=
   st.slabs.flatMap dataIds ++ (st.id :: extIds st.elements.elems)
-
-/-- created large-value slabs of owner `a` have indices the allocator handed out -/
-def CreatedTableOk (a : Nat) (c : Ctx) : Prop := ∀ p ∈ c.created, p.1.addr = a → p.1.idx ≤ c.ctr
-
-/-- `e` is what the bulk build stores next to key `k` for the input value `v`: `v` itself when it
-    fits the inline limit for this key, otherwise the 19-byte reference to a large-value slab that
-    holds `v` -/
-def Represents (T : Nat) (created : List (SlabID × Elem)) (k : MKey) (v e : Elem) : Prop :=
-  (v.size ≤ maxInlineMapValue T k.size ∧ e = v) ∨
-  (maxInlineMapValue T k.size < v.size ∧
-    ∃ id, e = ⟨slabIDStorableSize, .ref id⟩ ∧ AList.find? created id = some v)
 
 /-- identifier part of the loop invariant (after the pairs `proc`, in context `c`, for a call that
     started with the allocation counter at `c0`) -/
